@@ -174,3 +174,198 @@ theorem codecLaws_refCodec : CodecLaws refCodec where
     · exact absurd h (by simp)
 
 end C18
+
+namespace C18
+
+/-! ## the RFC 3339 date codec: the fixed-width decimal layer -/
+
+theorem digitVal_digitChar (d : Nat) : digitVal? (digitChar d) = some (d % 10) := by
+  have h : ∀ k, k < 10 → digitVal? (Char.ofNat (48 + k)) = some k := by decide
+  exact h (d % 10) (Nat.mod_lt _ (by decide))
+
+theorem parse_show2 (n : Nat) (h : n < 100) : parseDigits (show2 n) = some n := by
+  simp only [show2, parseDigits, List.foldl, digitVal_digitChar]
+  congr 1; omega
+
+theorem parse_show4 (n : Nat) (h : n < 10000) : parseDigits (show4 n) = some n := by
+  simp only [show4, parseDigits, List.foldl, digitVal_digitChar]
+  congr 1; omega
+
+theorem parse_show9 (n : Nat) (h : n < 1000000000) : parseDigits (show9 n) = some n := by
+  simp only [show9, parseDigits, List.foldl, digitVal_digitChar]
+  congr 1; omega
+
+/-- dropping trailing zeros loses nothing that padding with zeros does not restore -/
+theorem dropTrailingZeros_pad (l : List Char) :
+    dropTrailingZeros l ++ List.replicate (l.length - (dropTrailingZeros l).length) '0' = l := by
+  unfold dropTrailingZeros
+  have h := List.takeWhile_append_dropWhile (p := (· == '0')) (l := l.reverse)
+  have htw : l.reverse.takeWhile (· == '0') = List.replicate (l.reverse.takeWhile (· == '0')).length '0' := by
+    apply List.eq_replicate_iff.2
+    refine ⟨rfl, fun b hb => ?_⟩
+    have hall := List.all_takeWhile (p := (· == '0')) (l := l.reverse)
+    have := List.all_eq_true.1 hall b hb
+    simpa using this
+  have hl : l = (l.reverse.dropWhile (· == '0')).reverse ++ (l.reverse.takeWhile (· == '0')).reverse := by
+    rw [← List.reverse_append, h, List.reverse_reverse]
+  have hlen : l.length - (l.reverse.dropWhile (· == '0')).reverse.length = (l.reverse.takeWhile (· == '0')).length := by
+    have := congrArg List.length hl
+    simp only [List.length_append, List.length_reverse] at this ⊢
+    omega
+  rw [hlen]
+  conv => rhs; rw [hl]
+  rw [htw, List.reverse_replicate, List.length_replicate]
+
+end C18
+
+namespace C18
+
+theorem dropTrailingZeros_length_le (l : List Char) : (dropTrailingZeros l).length ≤ l.length := by
+  unfold dropTrailingZeros
+  simp only [List.length_reverse]
+  have := (List.dropWhile_suffix (· == '0') (l := l.reverse)).length_le
+  simpa using this
+
+/-- the text layer of the date codec, for real: a time stamp whose fields fit their widths is read back -/
+theorem parse_showStamp (t : Stamp) (hy : t.year < 10000) (hm : t.month < 100) (hd : t.day < 100)
+    (hh : t.hour < 100) (hi : t.minute < 100) (hs : t.second < 100) (hn : t.nanos < 1000000000) :
+    parseStamp (showStamp t) = some t := by
+  have e4 := parse_show4 t.year hy
+  have em := parse_show2 t.month hm
+  have ed := parse_show2 t.day hd
+  have eh := parse_show2 t.hour hh
+  have ei := parse_show2 t.minute hi
+  have es := parse_show2 t.second hs
+  simp only [show4, show2] at e4 em ed eh ei es
+  by_cases h0 : t.nanos = 0
+  · simp only [showStamp, show4, show2, h0, if_true, List.cons_append, List.nil_append, parseStamp,
+      e4, em, ed, eh, ei, es]
+    cases t; simp_all
+  · have hpad := dropTrailingZeros_pad (show9 t.nanos)
+    have hlen9 : (show9 t.nanos).length = 9 := rfl
+    rw [hlen9] at hpad
+    have hle := dropTrailingZeros_length_le (show9 t.nanos)
+    rw [hlen9] at hle
+    have hne : dropTrailingZeros (show9 t.nanos) ≠ [] := by
+      intro e
+      rw [e] at hpad
+      have h9 := parse_show9 t.nanos hn
+      rw [← hpad] at h9
+      have : parseDigits ([] ++ List.replicate (9 - ([] : List Char).length) '0') = some 0 := by decide
+      rw [this] at h9
+      exact h0 (by simpa using h9.symm)
+    have hfrac : parseDigits (dropTrailingZeros (show9 t.nanos) ++
+        List.replicate (9 - (dropTrailingZeros (show9 t.nanos)).length) '0') = some t.nanos := by
+      rw [hpad]; exact parse_show9 t.nanos hn
+    simp only [showStamp, show4, show2, h0, if_false, List.cons_append, List.nil_append, parseStamp,
+      e4, em, ed, eh, ei, es, List.reverse_append, List.reverse_cons, List.reverse_nil, List.reverse_reverse,
+      List.singleton_append]
+    have hcond : ¬ ((dropTrailingZeros (show9 t.nanos)).isEmpty = true ∨ 9 < (dropTrailingZeros (show9 t.nanos)).length) := by
+      intro h
+      rcases h with h | h
+      · exact hne (List.isEmpty_iff.1 h)
+      · omega
+    simp only [hcond, if_false, hfrac]
+
+end C18
+
+namespace C18
+
+/-- NAMED HYPOTHESIS (not proved; `omega` does not decide it and no enumeration is used): on the day numbers
+    of years 0000–9999 Hinnant's `civil_from_days` yields a calendar date with fields in range whose
+    `days_from_civil` is the day number again.  Spot-checked at the range ends in Props/C18.lean and against
+    the `time` crate on every date of every run (driver tag `date-impl-differs`). -/
+def CalendarInverse : Prop :=
+  ∀ z : Int, -719528 ≤ z → z ≤ 2932896 →
+    0 ≤ (civilFromDays z).1 ∧ (civilFromDays z).1 < 10000 ∧
+    1 ≤ (civilFromDays z).2.1 ∧ (civilFromDays z).2.1 ≤ 12 ∧
+    1 ≤ (civilFromDays z).2.2 ∧ (civilFromDays z).2.2 ≤ 31 ∧
+    daysFromCivil (civilFromDays z).1 (civilFromDays z).2.1 (civilFromDays z).2.2 = z
+
+/-- the date codec for real (`rfc3339Show` / `rfc3339Read`): under the calendar hypothesis every printable
+    date is read back, nanoseconds included -/
+theorem rfc3339_roundtrip_of_calendar (H : CalendarInverse) (d : Date) (s : String)
+    (h : rfc3339Show d = some s) : rfc3339Read s = some d := by
+  obtain ⟨secs, nanos⟩ := d
+  unfold rfc3339Show at h
+  simp only [dateLo', dateHi'] at h
+  by_cases hr : -62167219200 ≤ secs ∧ secs ≤ 253402300799 ∧ nanos < 1000000000
+  · simp only [hr, and_self, if_true] at h
+    obtain ⟨h1, h2, h3⟩ := hr
+    obtain ⟨c1, c2, c3, c4, c5, c6, c7⟩ := H (secs / 86400) (by omega) (by omega)
+    simp only [Option.some.injEq] at h
+    subst h
+    have hsod : (secs % 86400).toNat < 86400 := by omega
+    have py : (civilFromDays (secs / 86400)).1.toNat < 10000 := by omega
+    have pm : (civilFromDays (secs / 86400)).2.1 < 100 := by omega
+    have pd : (civilFromDays (secs / 86400)).2.2 < 100 := by omega
+    have ph : (secs % 86400).toNat / 3600 < 100 := by omega
+    have pi : (secs % 86400).toNat / 60 % 60 < 100 := by omega
+    have ps : (secs % 86400).toNat % 60 < 100 := by omega
+    unfold rfc3339Read
+    rw [String.toList_ofList, parse_showStamp _ py pm pd ph pi ps h3]
+    have hcond : 1 ≤ (civilFromDays (secs / 86400)).2.1 ∧ (civilFromDays (secs / 86400)).2.1 ≤ 12 ∧
+        1 ≤ (civilFromDays (secs / 86400)).2.2 ∧ (civilFromDays (secs / 86400)).2.2 ≤ 31 ∧
+        (secs % 86400).toNat / 3600 < 24 ∧
+        (secs % 86400).toNat / 60 % 60 < 60 ∧ (secs % 86400).toNat % 60 < 60 := by
+      refine ⟨c3, c4, c5, c6, ?_, ?_, ?_⟩ <;> omega
+    simp only [hcond, and_self, if_true]
+    have hy : (((civilFromDays (secs / 86400)).1.toNat : Nat) : Int) = (civilFromDays (secs / 86400)).1 := by omega
+    rw [hy, c7]
+    have hsecs : secs / 86400 * 86400 +
+        (((secs % 86400).toNat / 3600 * 3600 + (secs % 86400).toNat / 60 % 60 * 60 + (secs % 86400).toNat % 60 : Nat) : Int)
+          = secs := by omega
+    rw [hsecs]
+  · simp [hr] at h
+
+end C18
+
+namespace C18
+
+theorem digitChar_safe (d : Nat) : safeChar (digitChar d) = true := by
+  have h : ∀ k, k < 10 → safeChar (Char.ofNat (48 + k)) = true := by decide
+  exact h (d % 10) (Nat.mod_lt _ (by decide))
+
+theorem mem_dropTrailingZeros {l : List Char} {ch : Char} (h : ch ∈ dropTrailingZeros l) : ch ∈ l := by
+  unfold dropTrailingZeros at h
+  have h1 : ch ∈ l.reverse.dropWhile (· == '0') := by simpa using h
+  have := (List.dropWhile_suffix (· == '0') (l := l.reverse)).subset h1
+  simpa using this
+
+theorem showStamp_safe (t : Stamp) : (showStamp t).all safeChar = true := by
+  apply List.all_eq_true.2
+  intro ch hch
+  have h9 : ∀ x ∈ show9 t.nanos, safeChar x = true := by
+    intro x hx
+    simp only [show9, List.mem_cons, List.not_mem_nil, or_false] at hx
+    rcases hx with h | h | h | h | h | h | h | h | h <;> subst h <;> exact digitChar_safe _
+  simp only [showStamp, show4, show2, List.mem_append, List.mem_cons, List.not_mem_nil, or_false,
+    List.cons_append, List.nil_append] at hch
+  rcases hch with h | h | h | h | h | h | h | h | h | h | h | h | h | h | h | h | h | h | h | h | h
+  all_goals first
+    | (subst h; exact digitChar_safe _)
+    | (subst h; decide)
+    | skip
+  · split at h
+    · simp at h
+    · simp only [List.mem_cons] at h
+      rcases h with h | h
+      · subst h; decide
+      · exact h9 ch (mem_dropTrailingZeros h)
+
+/-- the reference codec with the date component replaced by the real RFC 3339 implementation -/
+def realDateCodec : Codec := { refCodec with showDate := rfc3339Show, readDate := rfc3339Read }
+
+/-- under the calendar hypothesis alone, `CodecLaws` holds with real integers, real base64 and real dates;
+    only the float component is still a stand-in -/
+theorem codecLaws_realDateCodec (H : CalendarInverse) : CodecLaws realDateCodec :=
+  { codecLaws_refCodec with
+    date_rt := fun d s h => rfc3339_roundtrip_of_calendar H d s h
+    date_safe := fun d s h => by
+      simp only [realDateCodec, rfc3339Show] at h
+      split at h
+      · simp only [Option.some.injEq] at h; subst h
+        simp only [String.toList_ofList]; exact showStamp_safe _
+      · exact absurd h (by simp) }
+
+end C18
